@@ -68,6 +68,10 @@ func (g *Grammar) goFieldType(prefix string, f Field) string {
 		return "[]gram.CapStr"
 	case FText:
 		return "gram.TextStr"
+	case FCust:
+		return "gram.PI"
+	case FCusts:
+		return "[]gram.PI"
 	}
 	return "string"
 }
